@@ -200,7 +200,11 @@ func runC15(o *opts) (*summary, error) {
 		}
 		emit(addrRoles[rng.Intn(4)], string(b), "mutation")
 	}
-	for _, s := range []string{"", " ", "::1", "[::1]:60000", "[::ffff:1.2.3.4]:60000", "1.2.3.4.5", "1.2.3", "256.1.1.1", "1.2.3.256:80", "01.2.3.4", "1.2.3.4:", ":80", "localhost:80", "1.2.3.4:80:90", "a1.2.3.4", "1.2.3.4z"} {
+	for _, s := range []string{"", " ", "::1", "[::1]:60000", "[::ffff:1.2.3.4]:60000", "1.2.3.4.5", "1.2.3", "256.1.1.1", "1.2.3.256:80", "01.2.3.4", "1.2.3.4:", ":80", "localhost:80", "1.2.3.4:80:90", "a1.2.3.4", "1.2.3.4z",
+		// texts without a dotted quad whose groups of digits are separated by something else than dots (IPv6 literals with four
+		// short decimal groups, quads written with other separators)
+		"1:2:3:4::", "::1:2:3:4", "1:2:3:4:5:6:7:8", "[192:168:1:100::1]:60001", "1:2:3:4::%5", "192:168:1:100::", "10:0:0:1::", "[1:2:3:4::]:60001",
+		"1-2-3-4", "1,2,3,4", "1 2 3 4", "1/2/3/4", "1x2x3x4:80", "192_168_1_100", "192:168:1:100", "fe80::1", "2001:db8::1", "[fe80::1%lo]:60001"} {
 		for _, role := range addrRoles {
 			emit(role, s, "odd")
 		}
